@@ -123,6 +123,13 @@ CHECKS["C18"] = {
   "text": "Proved: optimize_partition_by returns 'destination' exactly for (auto, trough source, non-trough destination) or an explicit 'destination', 'source' otherwise, ValueError for every other mode name, for all four labware-kind combinations. partition_by_column, for every list of 0-3 triples of symbolic well ids (rows A-Z, columns 1-99) and volumes, returns groups that contain exactly the input triples as a multiset with the three parallel lists aligned, each group in one column of the partitioning side, groups in strictly ascending column order, rows ascending within a group; ValueError for other mode names on non-empty input. " + _C18,
   "note": "Mixed: list lengths above 3 are covered by the bounded monitor. numpy.argsort is modelled as 'a sorting permutation' (ties explored in given order for n<=2, by branching otherwise), sorted() by a sorting network, string order of two-digit column suffixes = numeric order (columns 1..99 as in the property).",
 }
+_C05 = _BOUNDED_ONLY.pop("C05")
+CHECKS["C05"] = {
+  "category": "other",
+  "technique": "contract-based deductive verification: combine_composition against the ideal mixing function (all components, shared names), Labware.add's composition branch (mixture at the addressed real well, frame on all other wells and components), get_well_composition, removal invariance as a frame clause of remove; mixing algebra lemmas (nonlinear real arithmetic, z3) + bounded exact-Fraction monitor for histories and naming",
+  "text": "Proved on the real bodies: combine_composition returns None iff an input is None, otherwise exactly the components of A and B with fraction (vA*fA + vB*fB)/(vA+vB) (0 for absent), normalised and within [0,1] when the inputs are (dicts of 0-2 symbolic components with possibly shared names); Labware.add with a composition sets, at the addressed real well (troughs: the aliased one), every component to that mixture with the well's previous volume, keeps fractions summing to 1, leaves every other well and component untouched, changes nothing when rejected or when the well stays empty; remove never touches the composition (frame); get_well_composition returns exactly the positive fractions. Lemmas: mixture bounded, normalised, component amount conserved ((vA+vB)*mix == vA*fA + vB*fB). " + _C05,
+  "note": "Mixed: histories of operations (serial dilutions, conservation across labware), default / explicit naming (get_initial_composition, trough names) are explored by the bounded monitor. Symbolic labware carries two named components; incoming liquids 1-2 components. float = real.",
+}
 for _pid, _txt in _BOUNDED_ONLY.items():
     CHECKS[_pid] = {
         "category": "exploration",
